@@ -137,13 +137,13 @@ func randomVariant(rng *rand.Rand, f FileState) ([]byte, string) {
 }
 
 // AtomicRecordSize: a file not longer than this whose unsynced modifications rewrite bytes
-// inside its synced region (a small record updated in place, e.g. the freezer's .meta) is
-// treated as sector-atomic: after power loss it holds either the last synced version or the
+// inside its synced region (a small record updated in place, e.g. the freezer's .meta), or
+// which was never synced at all (a small record just created), is treated as sector-atomic: after power loss it holds either the last synced version or the
 // current one, never a byte-level mixture (torn sub-sector writes are outside the model).
 var AtomicRecordSize = 512
 
 func atomicRecord(f FileState) bool {
-	return f.Dirty && len(f.Dur) > 0 && f.Low < len(f.Dur) && len(f.Cur) <= AtomicRecordSize && len(f.Dur) <= AtomicRecordSize
+	return f.Dirty && (len(f.Dur) == 0 || f.Low < len(f.Dur)) && len(f.Cur) <= AtomicRecordSize && len(f.Dur) <= AtomicRecordSize
 }
 
 // PowerStates returns the systematic variant set plus nRandom random combinations for the
